@@ -97,3 +97,13 @@ Definition check_chan_case (c : chan_case) : bool :=
   let fs0 := mkfs (Some i0) tbl0 in
   let st := exec obs (map cop_of ops) (chan0 fs0 (init i0 (lookup tbl0 i0) head) header) in
   bytes_eqb (c_wire st) wire && bytes_eqb (c_out st) leftover.
+
+(* ---- maintenance: http_channel.kill_zombies (medusa/http_server.py) closes a
+   channel iff it has not been used (no send, no recv) for more than
+   zombie_timeout seconds; last_used is refreshed by every send() *)
+Definition survives (now tmo last_used : Z) : bool := negb (now - last_used >? tmo).
+
+(* (now, zombie_timeout, [(last_used of a channel, still in the socket map after maintenance?)]) *)
+Definition check_zombie_case (c : Z * Z * list (Z * bool)) : bool :=
+  let '(now, tmo, chans) := c in
+  forallb (fun ch => Bool.eqb (survives now tmo (fst ch)) (snd ch)) chans.
